@@ -108,6 +108,18 @@ CHECKS = {
          'decorators cannot lose a stored enumeration value; getter/index/setter/deleter helpers agree on the field per attribute; Get returns the access-checked object. '
          'Exact value fidelity through SQLite/SQLAlchemy/TTLV and restarts is NOT decided (run-time values).',
          'Trusted: SQLAlchemy column mapping; ROLE alias table.'),
+ 'C01': ('TTLV schema extraction from read()/write() ASTs and per-version sequence alignment; constant folding of primitive bounds vs struct formats; exhaustive evaluation of padding arithmetic over residues; registry sibling agreement',
+         'PARTIAL CLAIM (structure): 105 structure classes x 6 versions (630 comparisons) reader/writer element sequences and presence agree; primitive bounds fit their '
+         'pack formats; padding arithmetic correct for all 8 residues; by-name/by-tag attribute registries and both payload factories agree; Template<->Attributes '
+         'converters inverse. These are necessary conditions of the round trip for every constructible value. Value-level byte/values identity (e.g. non-ASCII text, '
+         'BigInteger sign boundaries) is NOT decided.',
+         'Trusted: struct module semantics; each child object obeys its own class schema (compositional).'),
+ 'C02': ('comparison of code constants with a specification table (independent oracle), CFG ordering check of all 105 structure writers, envelope dataflow',
+         'PARTIAL CLAIM (structure): type codes, fixed lengths, header field sizes, byte order, pad words equal the KMIP TTLV table; every structure writer computes its '
+         'length from the very stream holding its children after the last child write and before the header; the response envelope carries BatchCount = len(items), '
+         'the request version, a time stamp, and reason/message exactly on failure arms; the session only sends engine-built responses. Byte identity with an '
+         'independent encoder for all values is NOT decided.',
+         'Trusted: T_TYPES/T_FIXED/T_SIZES transcribe KMIP section 9.1.'),
 }
 
 NOT_YET = 'check not built yet in this session (rules designed in DESIGN.md section 4); will be claimed once its check exists and is silent on the unchanged tree'
